@@ -299,6 +299,109 @@ def build_with_history(hist):
     return tree, by_id
 
 
+class mem_guard:
+    """soft address-space limit of (current size + 1.5 GB) inside the block: a traversal whose work list doubles
+    (level order over a child list that contains itself) ends in MemoryError instead of taking the machine down"""
+    _vm = [0, 0]
+
+    def __enter__(self):
+        import resource
+        g = mem_guard._vm
+        if g[1] % 256 == 0:
+            try:
+                with open("/proc/self/status") as f:
+                    for line in f:
+                        if line.startswith("VmSize:"):
+                            g[0] = int(line.split()[1]) * 1024
+            except OSError:
+                g[0] = 0
+        g[1] += 1
+        self.old = resource.getrlimit(resource.RLIMIT_AS)
+        if g[0]:
+            lim = g[0] + (1 << 29)
+            if self.old[1] != resource.RLIM_INFINITY:
+                lim = min(lim, self.old[1])
+            resource.setrlimit(resource.RLIMIT_AS, (lim, self.old[1]))
+
+    def __exit__(self, *a):
+        import resource
+        resource.setrlimit(resource.RLIMIT_AS, self.old)
+        return False
+
+
+def run_kind(tree, start, case, cap, alarm_s=10):
+    """run the iterator / callback walk named by case["kind"] on `tree` (Tree-level kinds) or on the node `start`
+    (Node-level kinds) with the case's flags, filter set and truth values; at most `cap` items (then "Hang").
+    Returns (ids, err)."""
+    name, level, meth, flags, takes_filter, elem = KIND[case["kind"]]
+    obj = tree if level == "T" else start
+    passing = None if case["filter"] is None else set(case["filter"])
+    tv, fv = TRUTHY[case["truth"]], FALSY[case["truth"]]
+    kwargs = {}
+    events = []
+    calls = [0]
+
+    def record(e):
+        events.append(e)
+        if len(events) > cap:
+            raise Runaway()
+
+    def passes(i):
+        calls[0] += 1
+        if calls[0] > 4 * cap:        # a list-returning wrapper that does not terminate
+            raise Runaway()
+        return tv if i in passing else fv
+
+    if case["kind"] in ("KN_apply", "KT_apply"):
+        for fl, kw, tag in zip(case["flags"], ("before_fn", "after_fn", "leaf_fn"), (0, 2, 1)):
+            if fl:
+                kwargs[kw] = (lambda tg: (lambda nd: record(3 * nd._dv_id + tg)))(tag)
+    else:
+        for fl, fname in zip(case["flags"], flags):
+            kwargs[fname] = fl
+        if takes_filter and passing is not None:
+            if elem == "edge":
+                kwargs["filter_fn"] = lambda e: passes(e.head_node._dv_id)
+            else:
+                kwargs["filter_fn"] = lambda nd: passes(nd._dv_id)
+
+    def ident(x):
+        if elem == "edge":
+            hn = x.head_node
+            if hn.edge is not x or hn._edge is not x:
+                raise RuntimeError("edge object is not the edge of its head node")
+            return hn._dv_id
+        return x._dv_id
+
+    out, err = [], None
+    with warnings.catch_warnings():
+        warnings.simplefilter("ignore")
+        try:
+            with core.alarm(alarm_s), mem_guard():
+                if meth == "__len__":
+                    out = [len(obj)]
+                elif meth == "apply":
+                    obj.apply(**kwargs)
+                    out = events
+                else:
+                    r = iter(obj) if (meth == "__iter__" and level == "T") else getattr(obj, meth)(**kwargs)
+                    for x in r:
+                        out.append(ident(x))
+                        if len(out) > cap:
+                            raise Runaway()
+        except Runaway:
+            out, err = (events if meth == "apply" else out)[:cap], "Hang"
+        except (TimeoutError, MemoryError):
+            out, err = (events if meth == "apply" else out)[:cap], "Hang"
+        except RuntimeError:
+            raise
+        except Exception as e:
+            err = core.exc_enum(e)
+            if case["kind"] in ("KN_apply", "KT_apply"):
+                out = events
+    return out, err
+
+
 def observe(case):
     import dendropy
     from dendropy.utility import deprecate
@@ -327,59 +430,8 @@ def observe(case):
     if case["ages"] is not None:
         for i, nd in by_id.items():
             nd.age = case["ages"][i]
-    name, level, meth, flags, takes_filter, elem = KIND[case["kind"]]
     start = by_id[node_at(t, case["start"])["id"]]
-    obj = tree if level == "T" else start
-    passing = None if case["filter"] is None else set(case["filter"])
-    tv, fv = TRUTHY[case["truth"]], FALSY[case["truth"]]
-    kwargs = {}
-    events = []
-    if case["kind"] in ("KN_apply", "KT_apply"):
-        for fl, kw, tag in zip(case["flags"], ("before_fn", "after_fn", "leaf_fn"), (0, 2, 1)):
-            if fl:
-                kwargs[kw] = (lambda tg: (lambda nd: events.append(3 * nd._dv_id + tg)))(tag)
-    else:
-        for fl, fname in zip(case["flags"], flags):
-            kwargs[fname] = fl
-        if takes_filter and passing is not None:
-            if elem == "edge":
-                kwargs["filter_fn"] = lambda e: tv if e.head_node._dv_id in passing else fv
-            else:
-                kwargs["filter_fn"] = lambda nd: tv if nd._dv_id in passing else fv
-
-    def ident(x):
-        if elem == "edge":
-            hn = x.head_node
-            if hn.edge is not x or hn._edge is not x:
-                raise RuntimeError("edge object is not the edge of its head node")
-            return hn._dv_id
-        return x._dv_id
-
-    out, err = [], None
-    cap = 20 * n + 50
-    with warnings.catch_warnings():
-        warnings.simplefilter("ignore")
-        try:
-            with core.alarm(10):
-                if meth == "__len__":
-                    out = [len(obj)]
-                elif meth == "apply":
-                    obj.apply(**kwargs)
-                    out = events
-                else:
-                    r = iter(obj) if (meth == "__iter__" and level == "T") else getattr(obj, meth)(**kwargs)
-                    for x in r:
-                        out.append(ident(x))
-                        if len(out) > cap:
-                            raise Runaway()
-        except Runaway:
-            out, err = out[:cap], "Hang"
-        except RuntimeError:
-            raise
-        except Exception as e:
-            err = core.exc_enum(e)
-            if case["kind"] in ("KN_apply", "KT_apply"):
-                out = events
+    out, err = run_kind(tree, start, case, 20 * n + 50)
     obs = {"out": out, "err": err}
     if case["kind"] in AGE_KINDS:
         ages = []
@@ -615,7 +667,24 @@ def search(ctx, budget_s):
         for tree, hist in fixed_histories(rng):
             if try_tree(tree, all_paths(tree), None, hist=hist) or time.time() - t0 > budget_s:
                 break
+    from dv import c15_world
+
+    def try_world(case):
+        nonlocal n
+        v, k = c15_world.check_isolated(case)
+        n += k
+        if v:
+            ctx.violation(v[0], {"case": case}, key=v[1])
+        return bool(ctx.violations)
+
+    if not ctx.violations:
+        for case in c15_world.fixed_world_cases():
+            if try_world(case) or time.time() - t0 > budget_s:
+                break
     while not ctx.violations and time.time() - t0 < budget_s:
+        if rng.random() < 0.3:
+            try_world(c15_world.gen_world_case(rng, "quick"))
+            continue
         tree = random_tree(rng, big=False)
         if rng.random() < 0.3:
             tree, hist = make_history(rng, tree)
@@ -639,16 +708,19 @@ def fixed_histories(rng):
 def gen_overwritten():
     """True when coq/Gen/Traversals.v is not what the translator derives from this run's source"""
     import os
-    from dv import gen_traversals
-    try:
-        want = gen_traversals.generate(core.REPO)
-    except Exception:
-        return False          # fail-closed stub: handled by proof_stage
-    try:
-        with open(os.path.join(core.COQ, "Gen", "Traversals.v")) as f:
-            return f.read() != want
-    except OSError:
-        return True
+    from dv import gen_traversals, gen_traversals_obj
+    for mod, fname in ((gen_traversals, "Traversals.v"), (gen_traversals_obj, "TraversalsObj.v")):
+        try:
+            want = mod.generate(core.REPO)
+        except Exception:
+            continue              # fail-closed stub: handled by proof_stage
+        try:
+            with open(os.path.join(core.COQ, "Gen", fname)) as f:
+                if f.read() != want:
+                    return True
+        except OSError:
+            return True
+    return False
 
 
 # ---------------------------------------------------------------------------------------------
@@ -700,6 +772,31 @@ def build_cases(ctx, tier):
     return tree_list, cases
 
 
+def world_stage(ctx, tier):
+    """several trees in one process: histories through child_nodes()/set_child_nodes, Tree(seed_node=attached node),
+    tree.seed_node = attached node, node.parent_node = other, new_child, remove_child, trees created later; every live
+    tree re-traversed with every iterator after every step (dv.c15_world)"""
+    from dv import c15_world
+    cases = c15_world.fixed_world_cases()
+    for _ in range(120 if tier == "quick" else 1500):
+        cases.append(c15_world.gen_world_case(ctx.rng, tier))
+    runs = 0
+    found = 0
+    for case in cases:
+        c15_world.count_world(ctx, case)
+        v, k = c15_world.check_isolated(case)
+        runs += k
+        ctx.evaluations += k
+        ctx.distinct.add("world:" + core.canon(case))
+        if v:
+            ctx.violation(v[0], {"case": case}, key=v[1])
+            found += 1
+            if found >= 3:
+                break
+    ctx.notes.append("multi-tree histories: %d histories, %d iterator runs through the oracle" % (len(cases), runs))
+    return found
+
+
 def run(tier, seed, replay=None):
     ctx = core.Ctx("C15", tier, seed)
     ctx.assumptions = [
@@ -716,12 +813,18 @@ def run(tier, seed, replay=None):
         if case is None:
             print("replay file names broken obligations, no input:", json.dumps(r)[:2000])
             return 0
+        if "world" in case:
+            from dv import c15_world
+            obs = c15_world.observe_world(case)
+            print("history:", c15_world.describe(case, len(case["steps"])))
+            print("oracle:", c15_world.oracle_world(case, obs))
+            return 0
         obs = observe(case)
         print("observed:", obs)
         print("expected:", expected(case, obs))
         print("oracle:", oracle(case, obs))
         return 0
-    ok = core.proof_stage(ctx, ["Props/C15.vo"], gen_needed=("Traversals",))
+    ok = core.proof_stage(ctx, ["Props/C15.vo"], gen_needed=("Traversals",))     # Traversals.v and TraversalsObj.v
     if gen_overwritten():
         # another check running concurrently regenerates coq/Gen from its own DV_REPO: build again
         ctx.notes.append("coq/Gen/Traversals.v was overwritten by a concurrent run during the build; proof stage repeated")
@@ -730,6 +833,18 @@ def run(tier, seed, replay=None):
         if gen_overwritten():
             ctx.obligation("coq/Gen/Traversals.v stable during the build (no concurrent regeneration)", False)
             ok = False
+    if not ok and not any(n.startswith("Gen:") for n, o in ctx.obligations if not o):
+        # a compiled coq/Gen/*.vo can be stale when a concurrent run (another DV_REPO) rewrote the .v while it was being
+        # compiled (the .vo ends up newer than the restored .v): force a rebuild of the generated files once
+        import os
+        for fname in ("Traversals.v", "TraversalsObj.v"):
+            try:
+                os.utime(os.path.join(core.COQ, "Gen", fname))
+            except OSError:
+                pass
+        ctx.notes.append("proof stage repeated after touching coq/Gen/Traversals*.v (possibly stale .vo)")
+        ctx.obligations = []
+        ok = core.proof_stage(ctx, ["Props/C15.vo"], gen_needed=("Traversals",))
     if not ok:
         core.broken_proof(ctx, search)
     tree_list, cases = build_cases(ctx, tier)
@@ -737,9 +852,24 @@ def run(tier, seed, replay=None):
                     show_fn="case_run", nontrivial=nontrivial, search=search, shard=250,
                     sample_fn=lambda c, o: {"kind": c["kind"], "tree": trees.newick(label_ids(c["tree"]), with_len=False),
                                             "start": c["start"], "flags": c["flags"], "filter": c["filter"], "observed": o})
+    found = world_stage(ctx, tier)
+    if not found and not ctx.violations:
+        # the same histories against the object-level model (store of node records and list objects; mutators generated
+        # from the source by gen_traversals_obj.py; generated traversal machines on the object graph of the store)
+        from dv import c15_world
+        wcases = c15_world.fixed_world_cases() + [c15_world.gen_world_case(ctx.rng, tier)
+                                                  for _ in range(40 if tier == "quick" else 400)]
+        core.corr_stage(ctx, wcases, c15_world.observe_world_coq, c15_world.to_coq_world, c15_world.HEADER_WORLD,
+                        "hcase_ok", oracle=c15_world.oracle_world_coq, nontrivial=c15_world.nontrivial_world,
+                        search=search, shard=12, label="object-level histories")
     return ctx.finish(
         level="proof",
         rule="every iterator of Node (at every/sampled start node) and of Tree on fixed small shapes, a 50-wide star and random "
              "trees (single node, unifurcations, unifurcating root chains, polytomies; thorough: all shapes <= 4 leaves with "
              "unifurcation variants, every start node); random filter sets with non-bool truth values, random flags, callback "
-             "subsets; a case is non-trivial when the start node's subtree has >= 3 nodes; distinct by full case content")
+             "subsets; a case is non-trivial when the start node's subtree has >= 3 nodes; distinct by full case content; "
+             "plus multi-tree histories (dv.c15_world): 1-3 small trees, 2-5 (thorough 2-8) steps among child_nodes()-copy "
+             "edited and assigned back / kept, Tree(seed_node=attached node), tree.seed_node = attached node, "
+             "node.parent_node = other, new_child, remove_child, new tree; after every step every live tree is "
+             "traversed with every iterator kind under a step bound and compared with the recursive definition on the "
+             "harness's spec world; pointer structure, list identities and caller-held lists observed as well")
